@@ -1,4 +1,5 @@
 mod checks;
+mod micro;
 mod queuelist;
 mod tls;
 mod ebrworld;
@@ -25,6 +26,37 @@ fn main() {
     }
     let defs = checks::all();
     match args[1].as_str() {
+        "micro-calibrate" => {
+            // prints, for each micro-program, the steps A and B take when not preempted
+            let mut i = 0u64;
+            let mut last = String::new();
+            while let Some(v) = micro::enumerate(Tier::Thorough, i) {
+                let name = v["tmpl"].as_str().unwrap().to_string();
+                if name != last {
+                    // find the un-preempted case: last index of this program's first order
+                    last = name.clone();
+                }
+                i += 1;
+                if i > 3_000_000 {
+                    break;
+                }
+            }
+            for (pi, m) in micro::MICROS.iter().enumerate() {
+                // index of (order 0, k = none, m = none)
+                let mut base = 0u64;
+                for q in &micro::MICROS[..pi] {
+                    base += 2 * (q.ka as u64 + 1) * (q.kb as u64 + 1);
+                }
+                let idx = base + (m.ka as u64) * (m.kb as u64 + 1) + m.kb as u64;
+                let v = micro::enumerate(Tier::Thorough, idx).unwrap();
+                let out = runner::run_forked(60, &|| rcworld::exec("C01", &v));
+                if let runner::Outcome::Done(rep) = out {
+                    println!("{:70} steps A={:?} B={:?} (bounds {} {}) setup included; noops={:?}", m.name, rep.counters.get("steps_t0"), rep.counters.get("steps_t1"), m.ka, m.kb, rep.counters.get("ops_noop"));
+                } else {
+                    println!("{} -> {:?}", m.name, out);
+                }
+            }
+        }
         "list" => {
             for d in &defs {
                 println!("{}", d.id);
